@@ -26,7 +26,7 @@ Variable dict' : option bytes.
 Hypothesis Hcl : off + c_clen c < two64.
 
 Definition vok : Prop :=
-  off + c_clen c <= len b /\
+  (0 < c_clen c -> off + c_clen c <= len b) /\
   (if c_clen c =? 0 then all_zero (c_digest c)
    else bytes_eqb (H (h_chash hd) (sub b off (c_clen c))) (c_digest c)) = true.
 
@@ -34,7 +34,7 @@ Definition total (st : rstate) (out : bytes) : bytes :=
   out ++ r_dc st ++ (if zs then [] else r_data st).
 
 Definition RQopen (st : rstate) (out : bytes) : Prop :=
-  r_idx st = c :: next /\ r_eof st = false /\ r_loc st <= c_clen c /\ off + r_loc st <= len b /\
+  r_idx st = c :: next /\ r_eof st = false /\ r_loc st <= c_clen c /\ (0 < r_loc st -> off + r_loc st <= len b) /\
   r_rest st = dropN (off + r_loc st) b /\ r_chash st = Some (sub b off (r_loc st)) /\
   (if zs then r_data st = sub b off (r_loc st) /\ out = [] /\ r_dc st = []
    else out ++ r_dc st ++ r_data st = sub b off (r_loc st) /\ (r_dc st = [] \/ r_data st = [])).
@@ -42,7 +42,7 @@ Definition RQopen (st : rstate) (out : bytes) : Prop :=
 Definition RQclosed (st : rstate) (out : bytes) : Prop :=
   exists d x, vok /\ decode_chunk zdecomp zs dict' c (sub b off (c_clen c)) = Some d /\
     total st out = d ++ x /\ (length (r_idx st) < length (c :: next))%nat /\
-    (r_idx st = [] -> r_eof st = true) /\ (zs = false -> r_idx st = [] -> r_data st = []).
+    (r_idx st = [] -> r_eof st = true) /\ (zs = false -> r_eof st = true -> r_data st = []).
 
 Definition RQ (st : rstate) (out : bytes) : Prop := RQopen st out \/ RQclosed st out.
 
@@ -141,7 +141,7 @@ Proof.
         - assert (Hl : c_clen c < two64) by lia. unfold u64, two64 in *. lia.
         - lia. }
       remember (takeN rs (dropN (off + loc) b)) as src eqn:Esrc.
-      assert (Hls : len src <= rs /\ off + loc + len src <= len b).
+      assert (Hls : len src <= rs /\ (0 < len src -> off + loc + len src <= len b)).
       { subst src. rewrite len_takeN, len_dropN. lia. }
       assert (E1 : dropN rs (dropN (off + loc) b) = dropN (off + (loc + len src)) b).
       { subst src. rewrite dropN_extend. f_equal. lia. }
@@ -149,6 +149,7 @@ Proof.
       { subst src. apply sub_extend. }
       match goal with |- context [match ?fh with Some _ => _ | None => SDone _ _ end] => destruct fh as [fh'|] end; [|exact I].
       destruct src as [|x0 src']; [cbn [hash_update]; exact I|].
+      assert (Hsl : 0 < len (x0 :: src')) by (rewrite len_cons; lia).
       cbn [hash_update]. unfold set_data, set_chash, set_fhash, set_rest. rsimpl.
       split; [reflexivity|]. split; [|reflexivity]. left. unfold RQopen. rsimpl.
       split; [reflexivity|]. split; [reflexivity|]. split; [lia|]. split; [lia|]. split; [exact E1|]. split; [now rewrite E2|].
@@ -185,7 +186,7 @@ Proof.
         split; [exact C4|]. split; [exact C5|intros; discriminate].
       * exists d, (x ++ src). split; [exact C1|]. split; [exact C2|]. rewrite R3, R5, (Hdat eq_refl) in *.
         rewrite Hdc in *. cbn [app] in *. rewrite app_nil_r in C3. subst out. rewrite <- app_assoc.
-        split; [reflexivity|]. rewrite R1, R2. split; [exact C4|]. split; [exact C5|]. intros _ E. rewrite Hidx in E. discriminate.
+        split; [reflexivity|]. rewrite R1, R2. split; [exact C4|]. split; [exact C5|]. intros _ E. rewrite Heof in E. discriminate.
 Qed.
 
 Lemma RQ_excl st out o : RQclosed st out -> RQopen st o -> False.
@@ -286,27 +287,160 @@ Proof.
 Qed.
 
 (** what the state of an entry that the loop has left says about the bytes handed out *)
+Lemma takeN_app_le n (a r : bytes) : n <= len a -> takeN n (a ++ r) = takeN n a.
+Proof.
+  intros Hl. unfold takeN. rewrite firstn_app. unfold len in Hl.
+  replace (N.to_nat n - length a)%nat with 0%nat by lia. cbn. apply app_nil_r.
+Qed.
+
 Lemma RQ_closed_result st o n :
   RQclosed st o -> (len o = n \/ (r_eof st = true /\ r_dc st = [])) -> c_ulen c <= n ->
-  (zs = false -> c_ulen c = c_clen c) ->
   vok /\ decode_chunk zdecomp zs dict' c (sub b off (c_clen c)) = Some (takeN (c_ulen c) o).
 Proof.
-  intros (d & x & C1 & C2 & C3 & C4 & C5 & C6) Hex Hn Hnc. split; [exact C1|]. rewrite C2. f_equal.
+  intros (d & x & C1 & C2 & C3 & C4 & C5 & C6) Hex Hn. split; [exact C1|]. rewrite C2. f_equal.
   assert (Hld : len d = c_ulen c).
   { unfold decode_chunk in C2. destruct zs.
     - destruct (zdecomp dict' (sub b off (c_clen c)) (c_ulen c)) as [y|]; [|discriminate].
       destruct (N.eqb_spec (len y) (c_ulen c)); [|discriminate]. congruence.
-    - destruct (c_ulen c =? c_clen c); [|discriminate]. injection C2 as <-. destruct C1 as [Hb _].
-      rewrite len_sub by exact Hb. symmetry. now apply Hnc. }
+    - destruct (N.eqb_spec (c_ulen c) (c_clen c)) as [Hnc|]; [|discriminate]. injection C2 as <-. destruct C1 as [Hb _].
+      rewrite Hnc. destruct (N.eq_dec (c_clen c) 0) as [E0|E0]; [rewrite E0; reflexivity|].
+      apply len_sub. apply Hb. lia. }
   unfold total in C3.
+  assert (E : takeN (c_ulen c) (o ++ r_dc st ++ (if zs then [] else r_data st)) = d).
+  { rewrite C3. now apply takeN_app_exact. }
   destruct Hex as [Hlo|[He Hdc]].
-  - assert (Hge : c_ulen c <= len o) by lia.
-    assert (E : takeN (c_ulen c) ((o ++ r_dc st ++ (if zs then [] else r_data st))) = takeN (c_ulen c) (d ++ x)) by (now rewrite C3).
-    rewrite (takeN_app_exact (c_ulen c) d x Hld) in E. rewrite <- E.
-    rewrite <- (take_drop (c_ulen c) o) at 2. rewrite <- app_assoc.
-    symmetry. apply takeN_app_exact. rewrite len_takeN. lia.
-  - assert (Hidx : r_idx st = []).
-    { destruct (r_idx st) eqn:E; [reflexivity|exfalso]. admit. }
-    admit.
-Admitted.
+  - rewrite takeN_app_le in E by lia. now symmetry.
+  - rewrite Hdc in E. cbn [app] in E. destruct zs.
+    + rewrite app_nil_r in E. now symmetry.
+    + rewrite (C6 eq_refl He), app_nil_r in E. now symmetry.
+Qed.
 End Request.
+
+Section RequestAPI.
+Variable H : N -> bytes -> bytes.
+Variable zdecomp : option bytes -> bytes -> N -> option bytes.
+Variable hd : header.
+Variable f : bytes.
+Notation cks := (h_chunks hd).
+Notation b := (body hd f).
+Notation zs := (is_zstd hd).
+Hypothesis Hstarts : starts_ok 0 (h_chunks hd).
+Hypothesis Hsizes : data_total (h_chunks hd) < two64.
+
+(** the stored bytes of an entry match its index checksum (as validate_chunk decides it) *)
+Definition digest_ok (c : chunk) : Prop :=
+  (if c_clen c =? 0 then all_zero (c_digest c)
+   else bytes_eqb (H (h_chash hd) (stored b c)) (c_digest c)) = true.
+
+(** the dictionary of a context is either not loaded yet (and comp_read has not started a
+    chunk, when one will have to be loaded) or the verified, decoded first entry *)
+Definition dict_fact (st : rstate) : Prop :=
+  (first_ulen hd = 0 /\ r_dict st = None) \/
+  (0 < first_ulen hd /\ exists d0, r_dict st = Some d0 /\
+     (zs = true -> exists c0 cs, cks = c0 :: cs /\ digest_ok c0 /\
+                                 decode_chunk zdecomp true None c0 (stored b c0) = Some d0)).
+Definition DI (st : rstate) : Prop :=
+  dict_fact st \/ (0 < first_ulen hd /\ r_dict st = None /\ fresh st).
+
+(** the part of zck_get_chunk_data after the dictionary import *)
+Definition gcd_main (fuel : nat) (s : rstate) (k : nat) (dst_size : N) (c : chunk) (next : list chunk) : rres * rstate :=
+  match comp_init (comp_reset (reset_comp_data s)) with
+  | None => (RErr (-1), comp_reset (reset_comp_data s))
+  | Some st2 =>
+      let st3 := set_idx (set_chash (seek f st2 (data_offset hd + c_start c)) (Some [])) (c :: next) in
+      let ud := match k with O => false | _ => true end in
+      match comp_read H zdecomp hd fuel st3 dst_size ud with
+      | (ROk o, st4) =>
+          if (c_ulen c <=? dst_size) && Nat.eqb (length (r_idx st4)) (length (c :: next)) then
+            if (r_loc st4 =? c_clen c) && (match r_dc st4 with [] => true | _ => false end) then
+              if 0 <? r_err st4 then (RErr (-1), st4)
+              else match end_dchunk H zdecomp hd st4 ud c next with
+                   | (None, ste) => (RErr (-1), ste)
+                   | (Some st5, _) => (ROk o, match next with [] => set_eof st5 true | _ => st5 end)
+                   end
+            else (RErr (-1), set_err st4 1)
+          else (ROk o, st4)
+      | r => r
+      end
+  end.
+
+Lemma chunk_at k c next : skipn k cks = c :: next -> c_start c + c_clen c < two64.
+Proof.
+  intros Hsk. assert (E : cks = firstn k cks ++ c :: next) by (rewrite <- Hsk; symmetry; apply firstn_skipn).
+  destruct (chunk_sizes H zdecomp hd f Hstarts Hsizes _ c next E) as [Hlt Hst]. lia.
+Qed.
+
+Lemma gcd_main_sound fuel s k n c next o st' :
+  skipn k cks = c :: next -> c_ulen c <> 0 -> dict_fact s ->
+  gcd_main fuel s k n c next = (ROk o, st') ->
+  r_dict st' = r_dict s /\
+  (c_ulen c <= n -> digest_ok c /\
+     decode_chunk zdecomp zs (match k with O => None | _ => r_dict s end) c (stored b c) = Some (takeN (c_ulen c) o)).
+Proof.
+  intros Hsk Hu0 Hdf E. unfold gcd_main in E.
+  pose proof (chunk_at k c next Hsk) as Hcl.
+  unfold comp_init, comp_reset, reset_comp_data in E. rsimpl.
+  destruct (0 <? r_err s) eqn:Her; [discriminate|]. cbv iota in E. rsimpl.
+  set (ud := match k with O => false | _ => true end) in *.
+  match type of E with context [comp_read H zdecomp hd fuel ?x n ud] => set (st3 := x) in * end.
+  assert (Hd3 : r_dict st3 = r_dict s) by reflexivity.
+  destruct (comp_read H zdecomp hd fuel st3 n ud) as [[o'| |] st4] eqn:Ecr; try discriminate.
+  (* comp_read is the loop: no import at this point *)
+  unfold comp_read in Ecr. unfold st3 at 1 2, seek in Ecr. rsimpl. rewrite Her in Ecr. cbn [negb] in Ecr. cbv iota in Ecr.
+  destruct (N.eqb_spec n 0) as [En0|En0].
+  { injection Ecr as <- <-. unfold st3 in E. rsimpl. rewrite En0 in E.
+    destruct (N.leb_spec (c_ulen c) 0) as [Hle|_]; [lia|]. cbn [andb] in E. injection E as <- <-.
+    split; [reflexivity|]. intros Hle. lia. }
+  assert (Hnoimp : ud && (0 <? first_ulen hd) && match r_dict s with None => true | Some _ => false end = false).
+  { destruct Hdf as [[E0 _]|[_ (d0 & E1 & _)]].
+    - rewrite E0. change (0 <? 0) with false. rewrite andb_false_r. reflexivity.
+    - rewrite E1. apply andb_false_r. }
+  rewrite Hnoimp in Ecr.
+  set (dict' := if ud then r_dict st3 else None).
+  assert (HQ0 : RQ H zdecomp hd f c next (c_start c) dict' st3 []).
+  { left. unfold RQopen, st3, seek, set_idx, set_chash, set_rest. rsimpl.
+    split; [reflexivity|]. split; [reflexivity|]. split; [lia|]. split; [lia|].
+    split; [unfold body, data_offset; rewrite dropN_dropN; f_equal; lia|]. split; [reflexivity|].
+    destruct zs; repeat split; reflexivity. }
+  pose proof (RQ_loop H zdecomp hd f c next (c_start c) dict' Hcl ud n fuel st3 [] false ltac:(lia) ltac:(cbn; lia) HQ0 eq_refl) as Hl.
+  rewrite Ecr in Hl. destruct Hl as (HQ4 & Hd4 & Hex & Hnd).
+  assert (Hdd : dict' = match k with O => None | _ => r_dict s end).
+  { unfold dict', ud. destruct k; [reflexivity|exact Hd3]. }
+  assert (Hsub : sub b (c_start c) (c_clen c) = stored b c) by reflexivity.
+  destruct ((c_ulen c <=? n) && Nat.eqb (length (r_idx st4)) (length (c :: next))) eqn:Hcond.
+  - (* the requested entry was still open: the request finishes it *)
+    apply andb_true_iff in Hcond. destruct Hcond as [Hle Hlen]. apply N.leb_le in Hle. apply Nat.eqb_eq in Hlen.
+    destruct HQ4 as [HO|HC].
+    2:{ exfalso. destruct HC as (d & x & _ & _ & _ & C4 & _). lia. }
+    destruct ((r_loc st4 =? c_clen c) && match r_dc st4 with [] => true | _ => false end) eqn:Hc2; [|discriminate].
+    apply andb_true_iff in Hc2. destruct Hc2 as [Hloc Hdc]. apply N.eqb_eq in Hloc.
+    assert (Hdc' : r_dc st4 = []) by (destruct (r_dc st4); [reflexivity|discriminate]).
+    destruct (0 <? r_err st4); [discriminate|].
+    destruct (end_dchunk H zdecomp hd st4 ud c next) as [[st5|] ste] eqn:Ee; [|discriminate].
+    injection E as <- <-.
+    destruct HO as (A1 & A2 & A3 & A4 & A5 & A6 & A7).
+    destruct zs eqn:Ez.
+    { exfalso. destruct A7 as (_ & -> & _). destruct Hex as [Hx|[Hx _]]; [cbn in Hx; lia|congruence]. }
+    pose proof (end_dchunk_some H zdecomp hd st4 ud c next st5 ste Ee) as (F1 & F2 & F3 & F4).
+    split.
+    { destruct next; unfold set_eof; rsimpl; congruence. }
+    intros _.
+    assert (Hdat : r_data st4 = []).
+    { apply Hnd; [reflexivity|]. unfold RQopen. rewrite Ez. repeat split; assumption. }
+    destruct A7 as [B1 _]. rewrite Hdc', Hdat, !app_nil_r, Hloc in B1.
+    (* the end-of-chunk verification passed *)
+    unfold end_dchunk, validate_current in Ee. rewrite A6, Hloc in Ee.
+    match type of Ee with context [if ?ok then Some _ else None] => destruct ok eqn:Hok end; [|discriminate].
+    unfold backend_end_dchunk, zstd in Ee. rewrite Ez in Ee. unfold set_chash in Ee. rsimpl. rewrite Hloc in Ee.
+    destruct (N.eqb_spec (c_clen c) (c_ulen c)) as [Hcu|]; [|discriminate].
+    split; [unfold digest_ok; rewrite <- Hsub; exact Hok|].
+    unfold decode_chunk. rewrite <- Hcu, N.eqb_refl. f_equal. rewrite <- Hsub, <- B1.
+    symmetry. apply takeN_all. rewrite B1. unfold sub, takeN. rewrite !firstn_length. unfold len. lia.
+  - injection E as <- <-. split; [congruence|]. intros Hle.
+    apply andb_false_iff in Hcond. destruct Hcond as [Hc|Hc]; [apply N.leb_gt in Hc; lia|].
+    destruct HQ4 as [HO|HC].
+    { exfalso. destruct HO as (A1 & _). rewrite A1, Nat.eqb_refl in Hc. discriminate. }
+    destruct (RQ_closed_result H zdecomp hd f c next (c_start c) dict' st4 o' n HC Hex Hle) as [(V1 & V2) Hdecode].
+    rewrite Hsub, Hdd in Hdecode. split; [unfold digest_ok; rewrite <- Hsub; exact V2|exact Hdecode].
+Qed.
+End RequestAPI.
